@@ -632,3 +632,73 @@ func scratchBuffersClean(iter []bpath) (int, []string) {
 	}
 	return n, bad
 }
+
+// classDashN (C03-k): in the extraction loop a dash opens a range exactly when a member precedes it and a member
+// follows it in the list being walked - `[a-]`, `[-a]` and `[\\pL_-]` keep the dash as a plain member. The list walked
+// is the decoded member list; a bound taken from anything else (the class text, whose escapes and non-ASCII members
+// are longer than one element) moves the last-position test.
+func classDashN(c *Ctx, rule string) {
+	r := c.R
+	g := c.G()
+	cp := c.classParse()
+	if cp == nil || cp.extract == nil {
+		return
+	}
+	rs, ok := cp.extract.(*ast.RangeStmt)
+	if !ok {
+		r.Unk(rule, "G.ast.CharClassMatcher.parse:dash-opens-a-range-only-between-members", "", g.Where(cp.extract.Pos()), "the extraction loop is not a range loop over the member list")
+		return
+	}
+	paths, names := c.astNorm().normBlockNamed(cp.extractFd, cp.extBody)
+	list := nospace(rs.X)
+	if id, isId := rs.X.(*ast.Ident); isId && names[id.Name] != "" {
+		list = names[id.Name]
+	}
+	elem := list + "[#1]"
+	notLast := map[string]bool{"#1<len(" + list + ")-1": true, "#1+1<len(" + list + ")": true, "#1!=len(" + list + ")-1": true, "#1+1!=len(" + list + ")": true}
+	var bad []string
+	n := 0
+	for _, p := range paths {
+		// a path that opens a range: it moves the last plain member into the range list
+		opens := false
+		for _, e := range p {
+			if e.Kind == "set" && strings.HasPrefix(e.Text, cp.extRanges+"=append(") && strings.Contains(e.Text, cp.extChars+"[len("+cp.extChars+")-1]") {
+				opens = true
+			}
+		}
+		if !opens {
+			continue
+		}
+		n++
+		dash, last, some := false, false, false
+		for _, f := range p.facts() {
+			switch {
+			case f == elem+"=='-'":
+				dash = true
+			case notLast[f]:
+				last = true
+			case f == "len("+cp.extChars+")>0" || f == "len("+cp.extChars+")!=0" || f == "len("+cp.extChars+")>=1":
+				some = true
+			case strings.HasPrefix(f, "$") || strings.HasPrefix(f, "!$"):
+				// the state flags of the loop (inside a range, just closed a range)
+			case strings.HasPrefix(f, "#1<") || strings.HasPrefix(f, "#1+1<") || strings.HasPrefix(f, "#1!=") || strings.HasPrefix(f, "#1+1!="):
+				bad = append(bad, "a range is opened under `"+f+"`: the last-position test of a dash must be taken against the list being walked ("+list+"), whose elements are the decoded members")
+			default:
+				bad = append(bad, "a range is opened under the further condition `"+f+"`")
+			}
+		}
+		if !dash {
+			bad = append(bad, "a range is opened by a member that is not tested to be a dash")
+		}
+		if !last {
+			bad = append(bad, "a range is opened without the test that a member follows the dash in "+list+" (a trailing dash is a plain member)")
+		}
+		if !some {
+			bad = append(bad, "a range is opened without the test that a plain member precedes the dash")
+		}
+	}
+	if n == 0 {
+		bad = append(bad, "no path of the extraction loop opens a range")
+	}
+	r.Check(len(bad) == 0, rule, "G.ast.CharClassMatcher.parse:dash-opens-a-range-only-between-members", "", g.Where(cp.extract.Pos()), fmt.Sprintf("%d range-opening paths: member is '-', a plain member precedes, a member follows in %s", n, list), strings.Join(uniq(bad), "; "))
+}
